@@ -4,6 +4,7 @@ Driver for Model/Kernel.lean at ℚ:   lake env lean --run PgVerif/Drv/Kernel.le
   ss [row1] … | [loading] [x]       -> ok n/d                      (objective)
   dist [x] [widths]                 -> ok [raw distribution] [cumulative of it]
   cum [dist] [widths]               -> ok [cumulative]
+  bs degree m [xs] [ys]             -> ok [smoothed xs] [smoothed ys]   (m samples of the open B-spline; `bad-span` when a query has no knot span)
 -/
 import PgVerif.Model.Kernel
 import PgVerif.Drv.Proto
@@ -40,6 +41,21 @@ def step (ts : List String) : String :=
     match ratList d, ratList w with
     | some d, some w => "ok " ++ showRatList (cumVol (α := ℚ) d w)
     | _, _ => "bad-op"
+  | ["bs", d, m, xs, ys] =>
+    match d.toNat?, m.toNat?, ratList xs, ratList ys with
+    | some d, some m, some xs, some ys =>
+      if xs.length ≠ ys.length ∨ xs.length < 2 ∨ m < 2 ∨ d = 0 then "bad-op" else
+      -- the hypotheses of `bsplineAt_mem_Icc` are checked on every query: knot k ≤ x ≤ knot (k+1), knot k < knot (k+1), p ≤ k
+      let n := xs.length
+      let p := clipDegree d n
+      let ok := (List.range m).all fun i =>
+        let x : ℚ := query n p m i
+        let k := span n p x
+        decide (p ≤ k ∧ k + 1 ≤ n ∧ (knot n p k : ℚ) ≤ x ∧ x ≤ knot n p (k + 1) ∧ (knot n p k : ℚ) < knot n p (k + 1))
+      if !ok then "bad-span" else
+      let c := bsplineCurve (α := ℚ) d m xs ys
+      s!"ok {showRatList (c.map (·.1))} {showRatList (c.map (·.2))}"
+    | _, _, _, _ => "bad-op"
   | _ => "bad-op"
 
 def main : IO Unit := do loop (← IO.getStdin) step
